@@ -151,6 +151,7 @@ def explore(run, driver, budget):
     if driver is not None:
         g = driver.run([{"op": "retry.gen"}])[0]
         run.info["fit_model_as_translated"] = g
+    tiny_weight_stage(run, {"quick": 2, "thorough": 30, "search": 6}[budget])
     for _ in range(n_elections):
         e = exact_election(rng, rng.choice([12, 20, 40]), n_partial=rng.randint(2, 5))
         req = {"pi": rng.choice(["nonparametric", "gaussian"]), "estimands": rng.choice([["turnout"], ["dem", "turnout"]]),
@@ -215,6 +216,41 @@ def explore(run, driver, budget):
                     if m["calls"] != impl_calls or m["completes"] is not True:
                         run.diff("solver call sequence: model vs implementation", input=case, impl=impl_calls, model=m)
                     run.traces += 1
+
+
+def tiny_weight_stage(run, n):
+    """elections with one very small reporting unit next to very large ones (smallest weight below a millionth of the total): a failed or
+    inaccurate normalised solve must still be retried, whatever the weights look like"""
+    rng = run.rng
+    for _ in range(n):
+        e = exact_election(rng, rng.choice([14, 24]), n_partial=2)
+        big = ["baseline_dem", "baseline_gop", "baseline_turnout"]
+        for c in big:
+            e.pre[c] = e.pre[c] * 1000
+        for c in ("results_dem", "results_gop", "results_turnout"):
+            e.cur[c] = e.cur[c] * 1000
+        uid = e.pre["geographic_unit_fips"].iloc[rng.randint(0, 5)]
+        e.pre.loc[e.pre["geographic_unit_fips"] == uid, big] = [1, 0, 1]
+        e.cur.loc[e.cur["geographic_unit_fips"] == uid, ["results_dem", "results_gop", "results_turnout"]] = [1, 0, 1]
+        req = {"pi": rng.choice(["nonparametric", "gaussian"]), "estimands": ["turnout"], "alphas": [0.7], "features": [], "lambda": 0}
+        base = Injector()
+        ref = run_once(e, req, base)
+        if "raises" in ref:
+            continue
+        # first attempts: a call that is not the repeat of its predecessor (same data and quantile), however it was normalised
+        sig = [(c["data"], str(c["tau"])) for c in base.calls]
+        firsts = [i for i in range(len(sig)) if i == 0 or sig[i] != sig[i - 1]]
+        for k in firsts[:3]:
+            for kind in ("solverError", "inaccurate"):
+                case = {"election": e.describe(), "request": req, "k": k, "kind": kind, "fits": len(base.calls), "tiny_unit": uid}
+                got = run_once(e, req, Injector(k=k, kind=kind))
+                run.case(case, True)
+                run.count("fault " + kind + " (one tiny unit)")
+                if "raises" in got:
+                    run.violation("a failed / inaccurate solve ended the run instead of being retried", input=case,
+                                  impl={"raises": got["raises"], "msg": got.get("msg")}, predicate="retry_completes",
+                                  signature="C20:fatal", election=e.to_json())
+                    return
 
 
 def replay(run, driver, payload):
